@@ -508,6 +508,10 @@ def inplace_division(ctx, obs, prefixes: Sequence[str], rule='INPLACE-DIV') -> i
         r = ctx.dep.result(q)
         if r is None:
             continue
+        # a NEW private helper (not in the pinned tree) is not an entry point: the dtype of its parameters is whatever its callers
+        # computed, not what a user passes - unknown here, never `inherit`
+        from ..check import _is_new_function
+        param_kind = 'unknown' if _is_new_function(q) else 'inherit'
 
         def defs_of(name_node):
             ids = r.load_defs.get(id(name_node))
@@ -517,6 +521,9 @@ def inplace_division(ctx, obs, prefixes: Sequence[str], rule='INPLACE-DIV') -> i
             out = []
             for i in ids:
                 d = r.defs[i]
+                if d.kind == 'param' and param_kind == 'unknown':
+                    out.append(None)
+                    continue
                 if d.kind == 'param':
                     return None if len(list(ids)) == 1 else out.append(ast.Name(id='__param__', ctx=ast.Load()))
                 if d.kind == 'aug':
@@ -551,7 +558,7 @@ def inplace_division(ctx, obs, prefixes: Sequence[str], rule='INPLACE-DIV') -> i
                 for i in prev_ids:
                     d = r.defs[i]
                     if d.kind == 'param':
-                        kinds.add('inherit')
+                        kinds.add(param_kind)
                     elif d.kind == 'aug':
                         kinds.add('float' if isinstance(d.node, ast.AugAssign) and isinstance(d.node.op, ast.Div) else 'unknown')
                     elif d.kind == 'assign' and d.rhs is not None and isinstance(d.node, ast.Assign) and isinstance(d.node.targets[0], ast.Name):
